@@ -30,10 +30,11 @@ ClassForms == {"generic-paramspec", "generic-typevartuple", "recursive-alias", "
 Reexports == {"name", "alias", "star", "module", "modalias", "absolute-name", "all-list", "type-checking-import",
               "modalias-and-star", "name-and-alias-of-one-declaration"}       \* one module / declaration re-exported twice by the same __init__
 Foreign == {"one-segment", "two-segment", "three-segment", "generic", "as-superclass", "typing-special"}
-ModuleCode == {"member-func-call", "member-class-use", "member-const", "type-alias", "typevar-expr", "local-import", "try-import", "conditional-def", "main-guard"}
+ModuleCode == {"module-level-function-named-init", "member-func-call", "member-class-use", "member-const", "type-alias", "typevar-expr", "local-import", "try-import", "conditional-def", "main-guard"}
 Docs == {"PLAINTEXT", "GOOGLE", "NUMPYDOC", "REST", "malformed-numpy", "malformed-google", "malformed-rest", "unicode", "raw-backslash",
          "odd-types-numpy", "odd-types-google", "odd-types-rest",
          "member-named-like-module-numpy", "member-named-like-module-google", "member-named-like-module-rest",    \* gadget.py defines gadget() and Gadget.gadget()
+         "overload-only-in-package-file-numpy", "overload-only-in-package-file-google", "overload-only-in-package-file-rest",   \* @overload items without implementation in pkg/__init__.py
          "package-file-declarations-named-like-submodules-numpy",   \* pkg/__init__.py defines helper() and class widget next to pkg/helper.py and pkg/widget.py
          "module-named-like-package-numpy"}                                                                       \* pkg/pkg.py        \* docstring type expressions that are not plain names
 
